@@ -16,3 +16,33 @@ def reset_mutable_defaults(*modules):
                 for d in (obj.__kwdefaults__ or {}).values():
                     if isinstance(d, (set, list, dict)):
                         d.clear()
+
+
+_SNAPSHOTS = {}
+
+
+def snapshot_module_state(*modules):
+    """remember the import-time content of module-level dict/list/set objects (call once, at harness import)"""
+    import copy
+    for mod in modules:
+        snap = {}
+        for name, obj in vars(mod).items():
+            if isinstance(obj, (dict, list, set)) and not name.startswith("__"):
+                try:
+                    snap[name] = (obj, copy.deepcopy(obj))
+                except Exception:  # noqa
+                    pass
+        _SNAPSHOTS[mod.__name__] = snap
+
+
+def restore_module_state(*modules):
+    """put every remembered container back to its import-time content, in place (fresh-process semantics for each path)"""
+    import copy
+    for mod in modules:
+        for name, (obj, orig) in _SNAPSHOTS.get(mod.__name__, {}).items():
+            if obj != orig:
+                if isinstance(obj, list):
+                    obj[:] = copy.deepcopy(orig)
+                else:
+                    obj.clear()
+                    obj.update(copy.deepcopy(orig))
